@@ -362,10 +362,10 @@ class AsCompleted(_CHarness):
 
   def __init__(self, W=2, T=2, bad=None, ignore=False, menu=(),
                driver='as_completed', timeout=60, mode='preempt', push=True,
-               pause=False, bad_kind='raise'):
+               pause=False, bad_kind='raise', shuffle=False):
     self.params = dict(W=W, T=T, bad=bad, ignore=ignore, menu=list(menu),
                        driver=driver, timeout=timeout, mode=mode, push=push,
-                       pause=pause, bad_kind=bad_kind)
+                       pause=pause, bad_kind=bad_kind, shuffle=shuffle)
     if pause:
       self.pause_focus = ('_as_completed', 'as_completed', 'run',
                           'call_and_wait', 'next_idle_worker', 'submit')
@@ -397,6 +397,9 @@ class AsCompleted(_CHarness):
       self.pool = pool
       pool.wait_until_alive(minimum_num_workers=p['W'])
       fake_courier.NET.menu = {'maybe_make': list(p['menu'])}
+      # random.shuffle of the candidate workers as an environment choice (any
+      # rotation, one deviation each) instead of the identity
+      cenv._VRandom.choice_points = bool(p.get('shuffle'))
       tasks = []
       for i in range(p['T']):
         if p['bad'] == i and p.get('bad_kind') == 'unpicklable':
